@@ -60,6 +60,58 @@ def _canonical_name(expr: ast.Name) -> Term:
     return ('var', expr.id)
 
 
+# positional-or-keyword parameter names of in-package callables, by simple name (set by the driver once the class
+# table is built): a keyword argument naming such a parameter is moved to its positional slot, so that
+# `CompositionOperator(operands=x)` and `CompositionOperator(x)` are one term
+SIGNATURES: dict[str, list[str]] = {}
+
+_OPERATOR_FUNCS = {'operator.matmul': '@', 'operator.add': '+', 'operator.sub': '-', 'operator.mul': '*', 'operator.truediv': '/'}
+
+
+def _qualified(f: ast.AST) -> str | None:
+    """Dotted name of a callee with the import aliases of its module resolved (no package knowledge needed)."""
+    parts: list[str] = []
+    cur = f
+    while isinstance(cur, ast.Attribute):
+        parts.append(cur.attr)
+        cur = cur.value
+    if not isinstance(cur, ast.Name):
+        return None
+    module = getattr(cur, '_module', None)
+    head = cur.id
+    if module is not None and head in module.imports and head not in module.defs:
+        head = module.imports[head]
+    return '.'.join([head] + parts[::-1])
+
+
+def _positional(fname: str | None, args: tuple, kwargs: tuple) -> tuple[tuple, tuple]:
+    if not kwargs or fname is None or fname not in SIGNATURES:
+        return args, kwargs
+    params = SIGNATURES[fname]
+    kw = dict(kwargs)
+    out = list(args)
+    while len(out) < len(params) and params[len(out)] in kw:
+        out.append(kw.pop(params[len(out)]))
+    return tuple(out), tuple(sorted(kw.items()))
+
+
+def canon_lambda(t: Term) -> Term:
+    """A lambda term with its parameters renamed _a, _b, ... (alpha-equivalent lambdas compare equal)."""
+    if isinstance(t, tuple) and t and t[0] == 'lambda':
+        names = tuple('_' + chr(ord('a') + i) for i in range(len(t[1])))
+        if len(t[1]) == 1 and t[1][0] == '_x':
+            return t
+        return ('lambda', names, subst(t[2], {('var', p): ('var', n) for p, n in zip(t[1], names)}))
+    return t
+
+
+def beta(f: Term, args: tuple) -> Term | None:
+    """Application of a lambda term to argument terms."""
+    if f[0] == 'lambda' and len(f[1]) == len(args):
+        return subst(f[2], {('var', p): a for p, a in zip(f[1], args)})
+    return None
+
+
 def term(expr: ast.AST | None, env: dict[str, Term] | None = None) -> Term:
     env = env or {}
     if expr is None:
@@ -67,9 +119,15 @@ def term(expr: ast.AST | None, env: dict[str, Term] | None = None) -> Term:
     if isinstance(expr, ast.Name):
         if expr.id in env:
             return env[expr.id]
+        if _qualified(expr) in _OPERATOR_FUNCS:
+            return ('lambda', ('_a', '_b'), ('binop', _OPERATOR_FUNCS[_qualified(expr)], ('var', '_a'), ('var', '_b')))
         return _canonical_name(expr)
     if isinstance(expr, ast.Constant):
         return ('const', repr(expr.value))
+    if isinstance(expr, (ast.Attribute, ast.Name)) and not (isinstance(expr, ast.Name) and expr.id in env):
+        q0 = _qualified(expr)
+        if q0 in _OPERATOR_FUNCS:
+            return ('lambda', ('_a', '_b'), ('binop', _OPERATOR_FUNCS[q0], ('var', '_a'), ('var', '_b')))
     if isinstance(expr, ast.Attribute):
         base = term(expr.value, env)
         if base == ('attr', ('var', 'jax'), 'tree_util') and expr.attr in TREE_SYNONYMS:
@@ -98,6 +156,25 @@ def term(expr: ast.AST | None, env: dict[str, Term] | None = None) -> Term:
                     return ('RED', base)
             if f.attr == 'mv' and len(args) == 1:
                 return ('apply', base, args[0])
+        q = _qualified(f)
+        # operator.attrgetter('a') is lambda x: x.a; operator.matmul is lambda a, b: a @ b
+        if q == 'operator.attrgetter' and len(expr.args) == 1 and not kwargs and isinstance(expr.args[0], ast.Constant) and isinstance(expr.args[0].value, str) and '.' not in expr.args[0].value:
+            a = expr.args[0].value
+            x = ('var', '_x')
+            return ('lambda', ('_x',), ('T', x) if a == 'T' else ('I', x) if a == 'I' else ('attr', x, a))
+        if q == 'operator.methodcaller' and len(expr.args) == 1 and not kwargs and isinstance(expr.args[0], ast.Constant) and isinstance(expr.args[0].value, str):
+            m = ast.Call(func=ast.Attribute(value=ast.Name(id='_x', ctx=ast.Load()), attr=expr.args[0].value, ctx=ast.Load()), args=[], keywords=[])
+            return ('lambda', ('_x',), term(m, {}))
+        # map(f, xs) / list(map(f, xs)) / list(<generator>) are comprehensions
+        if isinstance(f, ast.Name) and f.id == 'map' and len(args) == 2 and not kwargs and 'map' not in env:
+            tgt = ('var', '_m')
+            elt = beta(args[0], (tgt,)) or ('call', args[0], (tgt,), ())
+            return ('comp', elt, ((tgt, args[1], ()),))
+        if isinstance(f, ast.Name) and f.id == 'list' and len(args) == 1 and not kwargs and args[0][0] == 'comp' and isinstance(expr.args[0], (ast.GeneratorExp, ast.Call)):
+            return args[0]
+        if isinstance(f, (ast.Name, ast.Attribute)):
+            simple = f.id if isinstance(f, ast.Name) else f.attr
+            args, kwargs = _positional(simple, args, kwargs)
         return ('call', term(f, env), args, kwargs)
     if isinstance(expr, (ast.List, ast.Tuple)):
         kind = 'list' if isinstance(expr, ast.List) else 'tuple'
@@ -159,7 +236,10 @@ def bind_target(target: ast.AST, value: Term, env: dict[str, Term]) -> None:
                     bind_target(e.value, ('rest', value, i), env)
                 else:
                     idx = i if not any(isinstance(x, ast.Starred) for x in target.elts[:i]) else i - len(target.elts)
-                    bind_target(e, ('item', value, idx), env)
+                    if len(target.elts) == 1:
+                        bind_target(e, ('sub', value, ('const', '0')), env)  # (y,) = v is y = v[0]
+                    else:
+                        bind_target(e, ('item', value, idx), env)
 
 
 def path_env(path: Path, env: dict[str, Term] | None = None, upto: ast.AST | None = None, track_items: bool = False) -> dict[str, Term]:
@@ -180,6 +260,10 @@ def path_env(path: Path, env: dict[str, Term] | None = None, upto: ast.AST | Non
                         bind_target(t, v, env)
             elif isinstance(st, ast.AnnAssign) and st.value is not None:
                 bind_target(st.target, term(st.value, env), env)
+            elif isinstance(st, ast.FunctionDef) and not st.decorator_list:
+                lam = _def_as_lambda(st, env)
+                if lam is not None:
+                    env[st.name] = lam
             elif isinstance(st, ast.AugAssign) and isinstance(st.target, ast.Name):
                 env[st.target.id] = ('binop', _BIN.get(type(st.op), '?'), term(st.target, env), term(st.value, env))
         elif ev[0] == 'iter' and ev[2]:
@@ -189,6 +273,22 @@ def path_env(path: Path, env: dict[str, Term] | None = None, upto: ast.AST | Non
                 if isinstance(n, ast.NamedExpr):
                     env[n.target.id] = term(n.value, env)
     return env
+
+
+def _def_as_lambda(fn: ast.FunctionDef, env: dict[str, Term]) -> Term | None:
+    """A nested function whose body is straight-line assignments and one return is the lambda of its return term."""
+    a = fn.args
+    if a.vararg or a.kwarg or a.kwonlyargs or a.defaults:
+        return None
+    body = [s for s in fn.body if not (isinstance(s, ast.Expr) and isinstance(s.value, ast.Constant))]
+    if not body or not isinstance(body[-1], ast.Return) or body[-1].value is None:
+        return None
+    if not all(isinstance(s, (ast.Assign, ast.AnnAssign)) for s in body[:-1]):
+        return None
+    names = [p.arg for p in a.posonlyargs + a.args]
+    inner = {k: v for k, v in env.items() if k not in names}
+    inner = path_env(Path([('stmt', s) for s in body[:-1]]), inner)
+    return ('lambda', tuple(names), term(body[-1].value, inner))
 
 
 def facts(path: Path, env0: dict[str, Term] | None = None, resolver=None, _depth: int = 0) -> set[tuple]:
@@ -262,7 +362,41 @@ def atom_facts(atom: ast.AST, pol: bool, env: dict[str, Term]) -> set[tuple]:
     ):
         out.add(('isinstance', term(atom.args[0], env), term(atom.args[1], env), pol))
     else:
-        out.add(('truth', term(atom, env), pol))
+        out |= term_facts(term(atom, env), pol)
+    return out
+
+
+def term_facts(t: Term, pol: bool) -> set[tuple]:
+    """Facts of a condition given as a term (a name bound earlier to a comparison, a negation, a conjunction)."""
+    out: set[tuple] = {('truth', t, pol)}
+    if not isinstance(t, tuple) or not t:
+        return out
+    if t[0] == 'unop' and t[1] == 'not':
+        return out | term_facts(t[2], not pol)
+    if t[0] == 'and' and pol:
+        for x in t[1:]:
+            out |= term_facts(x, True)
+    elif t[0] == 'or' and not pol:
+        for x in t[1:]:
+            out |= term_facts(x, False)
+    elif t[0] == 'cmp':
+        op, a, b = t[1], t[2], t[3]
+        if op in ('eq', 'ne'):
+            out.add(('eq' if (op == 'eq') == pol else 'ne', frozenset({a, b})))
+        elif op in ('is', 'isnot'):
+            out.add(('is' if (op == 'is') == pol else 'isnot', frozenset({a, b})))
+        elif op in ('lt', 'gt', 'le', 'ge'):
+            if op in ('gt', 'ge'):
+                a, b = b, a
+                op = 'lt' if op == 'gt' else 'le'
+            if pol:
+                out.add((op, a, b))
+            else:
+                out.add(('le' if op == 'lt' else 'lt', b, a))
+        elif op in ('in', 'notin'):
+            out.add(('in', a, b, (op == 'in') == pol))
+    elif t[0] == 'call' and t[1] == ('var', 'isinstance') and len(t[2]) == 2 and not t[3]:
+        out.add(('isinstance', t[2][0], t[2][1], pol))
     return out
 
 
